@@ -20,7 +20,7 @@ EXPLANATION = (
     "SAME store and a k that is at least the window / look-back; (D5) the regex search starts at "
     "max(0, len(buffer)-W) or 0. (D7) is an exhaustive evaluation of the extracted length "
     "abstraction of existing_data/new_data/do_search over a box of small lengths against the inductive invariant "
-    "'window covers what the naive search needs and the kept buffer suffices for the next call'. NOT decided: "
+    "'window covers what the naive search needs, is never longer than the search window (anchors and look-behind must not see text outside it), and the kept buffer suffices for the next call'. NOT decided: "
     "equivalence with the naive re-search as such over unbounded histories.")
 TRUSTED = ["negative-offset semantics of str.find(sub, start) and of slices", "re.Pattern.search(s, pos)",
            "io tell()/seek()/read() semantics", "sa/ engine (linear forms)"]
